@@ -153,7 +153,8 @@ class TimerMonitor:
                 ck.count('tm.dpd_started')
                 if idle < dpd - 1e-6 and not getattr(sim, 'forced_dpd', False):
                     ck.violation('dpd-probe-earlier-than-the-dpd-interval-after-the-last-authentic-message', {'idle': idle, 'dpd': dpd, 'trace': sim.trace[-6:]}, case)
-            if b['state'] == 'ESTABLISHED' and a['state'] == 'ESTABLISHED' and rec.kind == 'tick' and dt is not None:
+            # (judged in every loop turn, whatever woke it: on a network that is never quiet the turns are not 'tick' turns, and the timers run in all of them)
+            if b['state'] == 'ESTABLISHED' and a['state'] == 'ESTABLISHED' and dt is not None:
                 if idle > dpd + 2 * dt + 1e-6:
                     ck.violation('idle-ike-sa-did-not-probe-its-peer-within-one-tick-of-the-dpd-interval', {'idle': idle, 'dpd': dpd, 'tick': dt, 'trace': sim.trace[-6:]}, case)
                 else:
